@@ -1120,8 +1120,15 @@ func ruleOptionRejected(c *Ctx) {
 				}
 				pr := d.Preds[0]
 				if ifi, ok := pr.Instrs[len(pr.Instrs)-1].(*ssa.If); ok {
-					if bo, ok := ifi.Cond.(*ssa.BinOp); ok && (bo.Op == token.EQL || bo.Op == token.NEQ) && (bo.X == ssa.Value(tagParam) || bo.Y == ssa.Value(tagParam)) {
-						return true
+					conds := []ssa.Value{ifi.Cond}
+					if pr.Succs[0] == d && pr.Succs[1] != d {
+						// a conjunction kept as a boolean (case of a tagless switch)
+						conds = expandTrueConds(ifi.Cond, 0)
+					}
+					for _, cd := range conds {
+						if bo, ok := cd.(*ssa.BinOp); ok && (bo.Op == token.EQL || bo.Op == token.NEQ) && (bo.X == ssa.Value(tagParam) || bo.Y == ssa.Value(tagParam)) {
+							return true
+						}
 					}
 				}
 				d = pr
